@@ -17,11 +17,44 @@ import (
 // C13: RSV1 is set and accepted only on the first frame of a message, and the
 // message state is not disturbed by control frames.
 func C13(r *eng.Run) {
-	if r.T.Chance(sim.LEntry, 1, 3) {
+	switch r.T.Int(sim.LEntry, 6) {
+	case 0, 1:
 		c13Scripted(r)
-		return
+	case 2:
+		c13Marked(r)
+	default:
+		c13Stack(r)
 	}
-	c13Stack(r)
+}
+
+// c13Marked attaches the message state (marked compressed or not) to the
+// fragmenting writer and drives arbitrary call histories: whatever the
+// fragmentation (empty first frames, write-through, growth, hundreds of
+// fragments), RSV1 sits on the first frame of a compressed message and
+// nowhere else. The frame-level oracle is the one of C06.
+func c13Marked(r *eng.Run) {
+	cfg := drawWCfg(r)
+	cfg.Ext = 1 + r.T.Int(sim.LCfg, 2)
+	cfg.NoFlush = false
+	r.SetEntry("Writer+MessageState/" + ctorNames[cfg.Ctor])
+	ops := drawHistory(r, cfg, 12)
+	if r.T.Chance(sim.LHist, 1, 4) {
+		// Many fragments: a tiny buffer fed by a chunked source.
+		cfg.Ctor, cfg.Size = 1, 1+r.T.Int(sim.LSize, 2)
+		n := 257 + r.T.Int(sim.LLen, 400)
+		ops = []WOp{{Kind: WOpReadFrom, N: n, Chunks: []int{n}}, {Kind: WOpFlush}, {Kind: WOpWrite, N: 3}, {Kind: WOpFlush}}
+		r.Probe("message_of_more_than_256_fragments")
+	}
+	seed := r.T.U32(sim.LPaySeed)
+	p := NewPipe(r, nil)
+	wr := &WRun{Cfg: cfg, Ops: ops, Pipe: p}
+	wr.W = NewW(cfg, p)
+	wr.MS = applyOptions(wr.W, cfg)
+	wr.Size0 = wr.W.Size()
+	r.Note("C13 marked %s history %v", cfg, ops)
+	r.Res.Nontrivial = true
+	tr := &msgTrack{onlyWrites: true, startSize: wr.Size0}
+	ExecHistory(r, wr, seed, func(i int) { c06Step(r, wr, tr, i) })
 }
 
 type c13Msg struct {
@@ -47,10 +80,18 @@ func c13Stack(r *eng.Run) {
 	size := []int{1, 2, 5, 16, 64, 125, 126, 300, 4096}[r.T.Int(sim.LSize, 9)]
 	level := r.T.Range(sim.LCfg, 1, 9)
 	nmsg := 1 + r.T.Int(sim.LNMsg, 4)
+	bytewise := r.T.Chance(sim.LHist, 1, 6) // byte-sized writes into a 1-2 byte buffer: hundreds of fragments
+	if bytewise {
+		size = 1 + r.T.Int(sim.LSize, 2)
+		nmsg = 1 + r.T.Int(sim.LNMsg, 2)
+	}
 	var msgs []c13Msg
 	for i := 0; i < nmsg; i++ {
 		m := c13Msg{compressed: r.T.Int(sim.LCfg, 3) != 0, op: ref.OpBinary}
 		n := []int{0, 1, 10, 100, 700, 5000}[r.T.Int(sim.LLen, 6)]
+		if bytewise {
+			n = 300 + r.T.Int(sim.LLen, 500)
+		}
 		m.data = make([]byte, n)
 		sim.Fill(m.data, r.T.U32(sim.LPaySeed), r.T.Int(sim.LPayKind, 4))
 		msgs = append(msgs, m)
@@ -87,11 +128,14 @@ func c13Stack(r *eng.Run) {
 		pos := 0
 		for pos < len(m.data) {
 			k := 1 + r.T.Int(sim.LSeg, len(m.data)-pos)
+			if bytewise {
+				k = 1
+			}
 			if _, err := dst.Write(m.data[pos : pos+k]); err != nil {
 				r.Failf("unexpected_error", "write: %v", err)
 			}
 			pos += k
-			if r.T.Chance(sim.LCtrl, 1, 4) {
+			if !bytewise && r.T.Chance(sim.LCtrl, 1, 4) {
 				// Only between whole frames: push what is buffered out first.
 				if m.compressed {
 					if err := fw.Flush(); err != nil {
@@ -173,6 +217,13 @@ func c13Stack(r *eng.Run) {
 	var gotPings [][]byte
 	curCompressed := false
 	rd := &wsutil.Reader{Source: src, State: rst, Extensions: []wsutil.RecvExtension{&rms}}
+	if r.T.Chance(sim.LCfg, 1, 4) {
+		// The application skips the header check and did not mark the state
+		// as extended: the attached extension must be consulted all the same.
+		rd.SkipHeaderCheck = true
+		rd.State = rst &^ ws.StateExtended
+		r.Probe("reader_skips_header_check_without_extended_state")
+	}
 	rd.OnIntermediate = func(h ws.Header, pr io.Reader) error {
 		b, err := io.ReadAll(pr)
 		if err != nil {
@@ -297,6 +348,11 @@ func c13Scripted(r *eng.Run) {
 	st := sideState(side) | ws.StateExtended
 	var ms wsflate.MessageState
 	rd := &wsutil.Reader{Source: p, State: st, Extensions: []wsutil.RecvExtension{&ms}}
+	if r.T.Chance(sim.LCfg, 1, 4) {
+		rd.SkipHeaderCheck = true
+		rd.State = sideState(side)
+		r.Probe("reader_skips_header_check_without_extended_state")
+	}
 	var interHdr []ws.Header
 	rd.OnIntermediate = func(h ws.Header, pr io.Reader) error {
 		interHdr = append(interHdr, h)
